@@ -7,6 +7,7 @@ import (
 	"path/filepath"
 	"testing"
 
+	"github.com/akrylysov/pogreb"
 	"github.com/akrylysov/pogreb/fs"
 )
 
@@ -69,4 +70,27 @@ func TestF10_LockOnUnlinkedInode(t *testing.T) {
 	if err3 == nil {
 		_ = l3.Unlock()
 	}
+}
+
+// F12 (C10): FileSize / Backup running alongside writers on fs.Mem must not race
+// (run with -race; without the fix the race detector fails this test).
+func TestF12_MemFSConcurrentUse(t *testing.T) {
+	db, err := pogreb.Open("f12-"+t.Name(), &pogreb.Options{FileSystem: fs.Mem})
+	if err != nil {
+		t.Fatal(err)
+	}
+	defer db.Close()
+	done := make(chan struct{})
+	go func() {
+		defer close(done)
+		for i := 0; i < 2000; i++ {
+			_ = db.Put([]byte{byte(i), byte(i >> 8)}, make([]byte, 100))
+		}
+	}()
+	for i := 0; i < 200; i++ {
+		if _, err := db.FileSize(); err != nil {
+			t.Fatal(err)
+		}
+	}
+	<-done
 }
